@@ -58,7 +58,7 @@ def main():
         checks.append(ent)
     man = {
         "version": 1,
-        "setup_cmd": "/venv/bin/python vlib/build.py py driver asan fsx timelib fuzz",
+        "setup_cmd": "/venv/bin/python vlib/build.py py driver asan fsx timelib fuzz && (/venv/bin/pip install -q --no-index --find-links /opt/veriftools/wheels --target /verif/.deps atheris || echo 'atheris not installed: the coverage-guided Python engine of C14 thorough is skipped')",
         "hooks": {
             "guard": "DIGITAL_RF_VERIF",
             "enable": "no source hooks: the overlay build compiles /repo unmodified (-DDIGITAL_RF_VERIF=1 is defined but nothing in /repo tests it); observation is by LD_PRELOAD interposer and in-process wrappers",
@@ -72,6 +72,7 @@ def main():
             {"name": "fsx", "path": "csrc/fsx_interpose.c", "kind_free_text": "LD_PRELOAD interposer: count / pause / kill / fail file-system operations"},
             {"name": "cfuzz", "path": "csrc/fuzz_time.c", "kind_free_text": "libFuzzer + UBSan target with __int128 oracle"},
             {"name": "enum", "path": "vlib/campaign.py", "kind_free_text": "exhaustive enumeration of finite scopes"},
+            {"name": "atheris", "path": "tools/atheris_c14.py", "serves_properties": ["C14"], "kind_free_text": "atheris 3.1 (libFuzzer for Python) driving the Hypothesis strategy of C14 through fuzz_one_input with coverage from digital_rf.list_drf (thorough tier)"},
         ],
         "checks": checks,
         "not_applicable": na,
